@@ -65,9 +65,27 @@ func vhNodeBytes(dptr []int64, ttag []byte, cptr []int64, clen []byte, stag []by
 // nodes have a non-zero DBias: root R (at the end) = [leaf "AB", branch M]; M = [branch L,
 // leaf "FGH"]; L = [leaf "CD", leaf "E"]. The writer only produces such trees for > 65025
 // chunks; the specification allows them (and builds them by concatenation).
-func vhDeepFile() ([]byte, []byte) {
+//
+// Variant 1 has unequal chunk sizes around the node boundaries: R = [leaf "AB", branch M];
+// M = [branch L, leaf "F", leaf "GH"]; L = [leaf "C", leaf "DE"] (a seek into the middle of a
+// chunk followed by reads across the end of its leaf node must not skip the one-byte chunk).
+func vhDeepFile(variant int) ([]byte, []byte) {
 	frame := func(data string) []byte { return append([]byte{byte(len(data)), 0, 0}, data...) }
 	var f []byte
+	if variant == 1 {
+		l := vhNodeBytes([]int64{0, 1, 3}, []byte{0xFF, 0xFF}, []int64{117, 121}, []byte{1, 1}, []byte{0xFF, 0xFF}, 135)
+		m := vhNodeBytes([]int64{0, 3, 4, 6}, []byte{0xFE, 0xFF, 0xFF}, []int64{0, 126, 130}, []byte{1, 1, 1}, []byte{0xFF, 0xFF, 0xFF}, 135)
+		f = append(f, l...)
+		f = append(f, m...)
+		f = append(f, frame("AB")...) // 112
+		f = append(f, frame("C")...)  // 117
+		f = append(f, frame("DE")...) // 121
+		f = append(f, frame("F")...)  // 126
+		f = append(f, frame("GH")...) // 130
+		r := vhNodeBytes([]int64{0, 2, 8}, []byte{0xFF, 0xFE}, []int64{112, 48}, []byte{1, 1}, []byte{0xFF, 0xFF}, 183)
+		f = append(f, r...)
+		return f, []byte("ABCDEFGH")
+	}
 	l := vhNodeBytes([]int64{0, 2, 3}, []byte{0xFF, 0xFF}, []int64{101, 106}, []byte{1, 1}, []byte{0xFF, 0xFF}, 116)
 	m := vhNodeBytes([]int64{0, 3, 6}, []byte{0xFE, 0xFF}, []int64{0, 110}, []byte{1, 1}, []byte{0xFF, 0xFF}, 116)
 	f = append(f, l...)
@@ -86,9 +104,9 @@ func vhDeepFile() ([]byte, []byte) {
 func VH_C14_Seq() {
 	payload := []byte{7, 0, 0, 0, 0, 9, 8, 0, 0, 0, 0, 0, 3, 4, 5, 0, 0}
 	var file []byte
-	if vParam("LAYOUT") == 3 {
-		file, payload = vhDeepFile()
-		if w := vhWalkFile(file); w.why != "" || len(w.leaves) != 4 || w.nodes != 3 {
+	if vParam("LAYOUT") >= 3 {
+		file, payload = vhDeepFile(vParam("LAYOUT") - 3)
+		if w := vhWalkFile(file); w.why != "" || len(w.leaves) != 4+vParam("LAYOUT")-3 || w.nodes != 3 {
 			vFail("build/deep-file-is-not-spec-valid")
 		}
 	} else {
